@@ -40,7 +40,12 @@ CONTENT = {
     "sub/.h.cfg": "password alsoHidden\n",
 }
 BAD_BYTES = b"hostname x\n\xff\xfe bad \x80\x81 bytes 10.1.2.3\npassword zzz\n"
-FAULTS = ["undecodable", "outpath-is-dir", "outparent-is-file"]
+# undecodable bytes far into a file that is larger than any read-ahead buffer, after lines
+# that carry new secrets and addresses (a reader that decodes lazily processes those first)
+BAD_LATE = (b"".join(b"password lateSecret%d\n peer 138.7.6.%d\n" % (i, i % 250) for i in range(40))
+            + b"! filler line to get past read-ahead buffers ......................................\n" * 400
+            + b"password zzz \xff\xfe\x80 tail\nhostname end\n")
+FAULTS = ["undecodable", "undecodable-late", "outpath-is-dir", "outparent-is-file"]
 ORDERS = ["sorted", "reversed", "rotated"]
 OUTSTATES = ["absent", "empty-dir", "stale-file"]
 FEATURES = ["ip", "pwd+ip"]
@@ -90,6 +95,8 @@ def setup(root, tree, faults, outstate):
             files[e] = None
         elif faults.get(e) == "undecodable":
             files[e] = BAD_BYTES
+        elif faults.get(e) == "undecodable-late":
+            files[e] = BAD_LATE
         else:
             files[e] = CONTENT[e]
     os.makedirs(ind)
@@ -188,7 +195,7 @@ def judge(res, tree, faults, outstate, order, feat, rc, root_factory):
                 tree, faults, order, p), rc)
     for f in faults:
         p = os.path.join("out", f)
-        if faults[f] == "undecodable" and after.get(p) not in (None, b""):
+        if faults[f].startswith("undecodable") and after.get(p) not in (None, b""):
             res.violation("failed-file-left-partial-output", "%r holds %r" % (p, after.get(p)[:40]), rc)
     # healthy outputs equal the run in which the faulty files do not exist
     if faults and healthy:
